@@ -107,4 +107,44 @@ end
 def check (h : List String × Sk) : Bool :=
   (exec h.2 { pts := h.1.foldl (fun acc v => ins v acc) [] }).ok
 
+/-! ### the inode lock and the inode's cache slot (package fstxn)
+
+The inode cache hands out a slot per inode number and evicts least-recently-used entries whoever
+still waits for the inode (M8c).  A slot pointer is therefore good only if it was fetched while
+the inode's lock was held: fetched before, it may be an evicted entry's by the time the lock is
+granted, and the holder before us and we would work on two different objects for one inode — an
+abort of the holder (which clears the CURRENT slot) would then leave its uncommitted changes in
+ours.  `Gen.Skeleton.slotUses` lists, per function of fstxn, the calls `Acquire` / `Release` (lock
+table), `LookupSlot` (cache) and calls of other listed functions, in source order. -/
+
+/-- functions that run with the transaction's inode locks held, and rely on it -/
+def slotHeldAtEntry : List String := ["forgetInodes"]
+
+/-- calls that give inode locks back (kind, name) -/
+def slotReleasers : List (Nat × String) := [(0, "Release"), (1, "ReleaseInode"), (1, "releaseInodes"), (1, "postCommit")]
+
+/-- (1) a slot is looked up only while the lock is held: after `Acquire` with no `Release` in
+    between, or in a function that is entered with the locks held; nothing else is done to the
+    two tables (kind 2) -/
+def lookupUnderLock : Bool → List (Nat × String) → Bool
+  | _, [] => true
+  | held, (0, c) :: r =>
+    if c = "Acquire" then lookupUnderLock true r
+    else if c = "Release" then lookupUnderLock false r
+    else if c = "LookupSlot" then held && lookupUnderLock held r
+    else false
+  | held, (1, _) :: r => lookupUnderLock held r
+  | _, _ :: _ => false
+
+/-- (2) a function that relies on the locks is never called after they were given back -/
+def heldCallsBeforeRelease : Bool → List (Nat × String) → Bool
+  | _, [] => true
+  | released, c :: r =>
+    if slotReleasers.contains c then heldCallsBeforeRelease true r
+    else if c.1 = 1 && slotHeldAtEntry.contains c.2 then !released && heldCallsBeforeRelease released r
+    else heldCallsBeforeRelease released r
+
+def slotCheck (f : String × List (Nat × String)) : Bool :=
+  lookupUnderLock (slotHeldAtEntry.contains f.1) f.2 && heldCallsBeforeRelease false f.2
+
 end GoNfsd.Model.Skeleton
